@@ -121,7 +121,18 @@ func (a *Attestations) SetGitHubPullRequestApprovalAttestation(repo gitstore.Sto
 // observed the approval.
 func (a *Attestations) GetGitHubPullRequestApprovalAttestationFor(repo gitstore.Storer, appName, refName, fromRevisionID, targetTreeID string) (*sslibdsse.Envelope, error) {
 	indexPath := GitHubPullRequestApprovalAttestationPath(refName, fromRevisionID, targetTreeID)
-	return a.GetGitHubPullRequestApprovalAttestationForIndexPath(repo, appName, indexPath)
+	env, err := a.GetGitHubPullRequestApprovalAttestationForIndexPath(repo, appName, indexPath)
+	if err != nil {
+		return nil, err
+	}
+
+	// The attestation is looked up by path, so we must check that the
+	// approval it records is in fact for the requested change
+	if err := githubv01.ValidatePullRequestApproval(env, refName, fromRevisionID, targetTreeID); err != nil {
+		return nil, errors.Join(github.ErrInvalidPullRequestApprovalAttestation, err)
+	}
+
+	return env, nil
 }
 
 // GetGitHubPullRequestApprovalAttestationForReviewID returns the requested
